@@ -4,6 +4,7 @@
 package main
 
 import (
+	"runtime/debug"
 	"bufio"
 	"flag"
 	"fmt"
@@ -15,7 +16,12 @@ import (
 var (
 	out      *bufio.Writer
 	progress *os.File
+	// crashedCases: indexes of cases that killed the process in an earlier attempt (fatal runtime
+	// errors cannot be recovered); they are reported as such instead of being executed again
+	crashedCases = map[int]bool{}
 )
+
+const fatalText = "fatal: the process died while running this case (unrecoverable runtime error, e.g. stack overflow)"
 
 // mark records the index of the case about to run, so that a fatal crash (stack
 // overflow) can be attributed to it by the check driver.
@@ -56,6 +62,9 @@ func main() {
 	corpus := fs.String("corpus", "", "JSONL file of cases that run first (minimised past failures, witnesses of known findings)")
 	fs.Parse(os.Args[2:])
 
+	// an unbounded recursion in the code under test ends the process at this stack size (the
+	// default is 1 GB); the crashed case is then attributed and re-run alone by the check
+	debug.SetMaxStack(96 << 20)
 	out = bufio.NewWriterSize(os.Stdout, 1<<20)
 	defer out.Flush()
 	if *progressFile != "" {
@@ -65,6 +74,7 @@ func main() {
 			defer f.Close()
 		}
 	}
+	crashedCases = parseSkips(*crashed)
 	cfg := Config{Seed: *seed, N: *n, Profile: *profile, Reps: *reps, Crashed: parseSkips(*crashed), Replay: *replay, Corpus: *corpus}
 
 	switch op {
